@@ -263,6 +263,9 @@ AXIS_POS = {"unsqueeze": 0, "squeeze": 0, "flatten": 0, "chunk": 1, "split": 1, 
             "select": 0, "index_select": 0, "gather": 0, "unbind": 0, "amax": 0, "amin": 0, "norm": 1, "roll": 1, "flip": 0, "movedim": 0, "repeat_interleave": 1}
 
 
+RANK_BOUND = {"mm": "2-D operands", "addmm": "2-D operands", "mv": "a matrix and a vector", "addmv": "a matrix and a vector", "bmm": "3-D operands", "baddbmm": "3-D operands", "addbmm": "3-D operands"}
+
+
 def r8_feature_axis_from_the_end(repo: Repo, rep):
     R = rep.rule("R-C08-8", "models that accept several batch axes (and their building-block layers) address tensor axes of input-derived values from the end only "
                  "(dim=-1 for the features), never by a non-negative position", floor=8,
@@ -297,6 +300,10 @@ def r8_feature_axis_from_the_end(repo: Repo, rep):
                 name = c.func.attr
                 is_mod = (attr_chain(c.func.value) or "") in ("torch", "torch.nn.functional", "torch.linalg")
                 subject = (c.args[0] if c.args else None) if is_mod else c.func.value
+                if name in RANK_BOUND and any(isinstance(x, ast.Name) and x.id in tainted for a in list(c.args) + [c.func.value] for x in ast.walk(a)):
+                    # products defined for matrices / batched matrices only: nn.Linear, F.linear and matmul take any number of leading axes
+                    bad.append(f"{dump(c)[:60]} ({name} accepts {RANK_BOUND[name]} only)")
+                    continue
                 if subject is None or not any(isinstance(x, ast.Name) and x.id in tainted for x in ast.walk(subject)):
                     continue
                 axes = [k.value for k in c.keywords if k.arg in ("dim", "axis", "dims", "start_dim", "end_dim")]
